@@ -190,9 +190,14 @@ func vc20_tables() {
 // the encoding cannot hold it a limit error is due.
 func vc20_text() {
 	fb := vfb()
-	size := []int{0, 1, 65535, 65536, 65537}[vsym_choice(5)]
+	// pre-states satisfy the invariant len(fn.Text) <= 65536 (what the 16-bit index
+	// plus one pending chunk admits); larger tables are unreachable once the limit holds
+	size := []int{0, 1, 65535, 65536}[vsym_choice(4)]
 	fb.fn.Text = make([][]byte, size)
 	limited := vlimit(func() { fb.emitText([]byte("x"), false, false) })
+	if size >= 65536 {
+		vassert(limited, "text-chunks-limit-reported")
+	}
 	if !limited {
 		in := fb.fn.Body[len(fb.fn.Body)-1]
 		vassert(in.Op == runtime.OpText, "text-instruction-emitted")
